@@ -399,6 +399,10 @@ impl G {
                 s.push(Step::Sleep(2));
             }
         }
+        if self.r.chance(self.p.p_kill_self.min(4)) {
+            // the handler stops its own actor: everything accepted before is still handled, then on_stop(false)
+            s.push(Step::StopSelf);
+        }
         if self.r.chance(self.p.p_hpanic) {
             s.push(Step::Panic);
         }
